@@ -438,6 +438,16 @@ fn more_family<
             "T1{load, exit} || T2{first use: load_full} || W{store}",
             move || h_more::churn_par::<S>(),
         ));
+        if path != "nofast" {
+            out.push(inst(
+                format!("migrate:{}", path),
+                &["C01", "C02", "C07", "C10"],
+                Fresh,
+                3,
+                "A{load g; spawn B(g); S x {load, drop}} || B{use g; drop g} || W{store}",
+                move || h_more::migrate::<S>(fill),
+            ));
+        }
         out.push(inst(
             format!("churn_two:{}", path),
             &["C01", "C02", "C10", "C11", "C13"],
